@@ -20,6 +20,7 @@ import (
 	"fmt"
 	"math/big"
 	"sync/atomic"
+	"strings"
 	"time"
 
 	"verif/ref/der"
@@ -239,6 +240,10 @@ func ExtBasicConstraints(ca bool, critical bool) Ext {
 	}
 	return Ext{OID: OIDBasicConstraints, Critical: critical, Value: v, Label: fmt.Sprintf("bc(ca=%v)", ca)}
 }
+// ExtBasicConstraintsPathLen is a critical basicConstraints with cA TRUE and the given pathLenConstraint.
+func ExtBasicConstraintsPathLen(pathLen int) Ext {
+	return Ext{OID: OIDBasicConstraints, Critical: true, Value: der.Seq(der.Bool(true), der.Int(int64(pathLen))), Label: fmt.Sprintf("bc(ca=true,pathlen=%d)", pathLen)}
+}
 func ExtKeyUsage(bits byte, unused byte) Ext {
 	return Ext{OID: OIDKeyUsage, Critical: true, Value: der.BitString([]byte{bits}, unused), Label: "ku"}
 }
@@ -343,7 +348,7 @@ func Build(t Tmpl, signer *Key) *Cert {
 	sig := signer.SignTBS(tbs)
 	c := &Cert{DER: Assemble(tbs, alg, sig), TBS: tbs, T: t, Signer: signer}
 	for _, e := range t.Exts {
-		if e.Label == "bc(ca=true)" {
+		if e.Label == "bc(ca=true)" || strings.HasPrefix(e.Label, "bc(ca=true,") {
 			c.IsCA = true
 		}
 	}
